@@ -83,6 +83,10 @@ func vSymTree3(name string, depth int) vTree {
 		return vTree{respValue{data: respBigNumber{bn: big.NewInt(12345)}}, func(g respValue) bool { return vIsText(g, "12345") }}
 	case 9: // array
 		n := vChoice(name+".n", 3)
+		if depth >= 2 {
+			// two levels of nesting: one spine (the breadth is covered one level down)
+			n = vChoice(name+".n1", 2)
+		}
 		kids := make([]vTree, n)
 		a := make(respArray, n)
 		for i := range kids {
@@ -101,7 +105,10 @@ func vSymTree3(name string, depth int) vTree {
 			return okAll
 		}}
 	case 10: // map with bulk-string keys -> flat key/value array in order
-		n := 1 + vChoice(name+".n", 2)
+		n := 1
+		if depth < 2 {
+			n = 1 + vChoice(name+".n", 2)
+		}
 		m := newRespMap()
 		keys := []string{"ka", "kb"}[:n]
 		kids := make([]vTree, n)
@@ -121,7 +128,12 @@ func vSymTree3(name string, depth int) vTree {
 			return okAll
 		}}
 	case 11: // list of pairs -> flat array
-		k := vSymTree3(name+".pk", 0)
+		var k vTree
+		if depth >= 2 {
+			k = vTree{respValue{data: respBulkString("pk")}, func(g respValue) bool { return vIsBulk(g, "pk") }}
+		} else {
+			k = vSymTree3(name+".pk", 0)
+		}
 		w := vSymTree3(name+".pv", depth-1)
 		p := respPairs{respPair{key: k.v, value: w.v}}
 		return vTree{respValue{data: p}, func(g respValue) bool {
